@@ -57,6 +57,7 @@ def text_of(n):
 
 def expected(root):
     exp = {}
+    either = []
     boundary = [False]
 
     def put(code, n, v):
@@ -134,9 +135,13 @@ def expected(root):
                 if nw >= 20:
                     put(W.DATASET_ABSTRACT_MISSING, n, NOT)
                     put(W.DATASET_ABSTRACT_TOO_SHORT, n, NOT)
-                elif inline or (nw == 0 and ab[0].children):
+                elif inline or (nw == 0 and (ab[0].children or ab[0].content)):
+                    # present but without a counted word (only children, or only whitespace): "missing" and "too short"
+                    # are both defensible; one of them has to be reported unless inline children may carry the words
                     put(W.DATASET_ABSTRACT_MISSING, n, UNS)
                     put(W.DATASET_ABSTRACT_TOO_SHORT, n, UNS)
+                    if not inline:
+                        either.append((W.DATASET_ABSTRACT_MISSING, W.DATASET_ABSTRACT_TOO_SHORT, n))
                 else:
                     put(W.DATASET_ABSTRACT_MISSING, n, MUST if nw == 0 else NOT)
                     put(W.DATASET_ABSTRACT_TOO_SHORT, n, MUST if 0 < nw < 20 else NOT)
@@ -156,7 +161,7 @@ def expected(root):
         if nm == "description" and n.parent is not None and n.parent.name in DESC_PARENTS:
             has_text = text_of(n).strip() != ""
             put(DESC_PARENTS[n.parent.name], n, NOT if has_text else (MUST if (not n.content and not n.children) else UNS))
-    return exp, boundary[0]
+    return exp, boundary[0], either
 
 
 def check(sp, judge=True):
@@ -194,7 +199,7 @@ def check(sp, judge=True):
         raise Violation("tree-differs-from-nodes", "evaluate.tree is not the document-order concatenation of evaluate.node", case)
     if not judge:
         return 0, False
-    exp, boundary = expected(root)
+    exp, boundary, either = expected(root)
     got = collections.Counter((w[0], id(w[2])) for w in ws[1:])
     names = {id(n): n.name for n in allnodes}
     for k, c in got.items():
@@ -205,6 +210,9 @@ def check(sp, judge=True):
             raise Violation("undocumented-warning:" + k[0].name, f"{k[0].name} on {names[k[1]]}: not implied by the documented recommendations", case)
         if v == NOT:
             raise Violation("spurious-warning:" + k[0].name, f"{k[0].name} reported on {names[k[1]]} although the recommendation is met", case)
+    for a, b, n in either:
+        if (a, id(n)) not in got and (b, id(n)) not in got:
+            raise Violation("missing-warning:" + a.name + "-or-" + b.name, f"neither {a.name} nor {b.name} reported on {n.name}", case)
     for k, v in exp.items():
         if v == MUST and k not in got:
             raise Violation("missing-warning:" + k[0].name, f"{k[0].name} not reported on {names[k[1]]}", case)
